@@ -90,6 +90,9 @@ class vstr(metaclass=_ShadowMeta):
             return tokstr.TokStr([tokstr.FloatLit(x)])
         if isinstance(x, SBool):
             return "True" if x else "False"
+        f = getattr(type(x), "__str__", None)
+        if f is not None and not a and type(x).__module__.startswith("strengths"):
+            return f(x)      # user-defined __str__ may return a token string (symbolic number atoms)
         return str(x, *a)
 
     # str.method(...) style calls are not used by the repository
